@@ -22,6 +22,7 @@ package rux
 //@ extern (net/http.ResponseWriter).Write(self, b) (n, err)
 //@   modifies body(self), early(self)
 //@   ensures 0 <= n && n <= len(b)
+//@   ensures n < len(b) ==> err != nil
 //@   ensures body(self) == old(body(self)) ++ substr(bytes(b), 0, n)
 //@   ensures early(self) == (old(early(self)) || old(hdrCalls(self)) == 0)
 //@ extern (net/http.ResponseWriter).Header(self) (h)
@@ -72,6 +73,7 @@ package rux
 //@   ensures length_counts: w.length == max(old(w.length), 0) + n && 0 <= n && n <= len(b)
 //@   ensures status_sent: old(w.length) == -1 ==> hdrStatus(w.Writer) == (old(w.status) == 0 ? 200 : old(w.status))
 //@   ensures status_kept: old(w.length) >= 0 ==> hdrStatus(w.Writer) == old(hdrStatus(w.Writer))
+//@   ensures short_write_error: n < len(b) ==> err != nil
 //
 //@ func (*responseWriter).Flush [C08]
 //@   requires wInv(w) && implements(w.Writer, http.Flusher)
@@ -80,3 +82,133 @@ package rux
 //@   ensures committed: w.length >= 0
 //@   ensures status_sent: old(w.length) == -1 ==> hdrStatus(w.Writer) == (old(w.status) == 0 ? 200 : old(w.status))
 //@   ensures body_kept: body(w.Writer) == old(body(w.Writer))
+
+// ---------------------------------------------------------------------------
+// Context: reset / pristine state (C10), status helpers (C08)
+//
+//@ spec rw(c *Context) *responseWriter = &c.writer
+//@ spec respBound(c *Context) bool = c.Resp == iface(&c.writer, *responseWriter)
+//@ spec freshWriter(w http.ResponseWriter) bool = w != nil && !hastype(w, *responseWriter) && hdrCalls(w) == 0 && !early(w)
+//@ spec pristine(c *Context) bool = c.index == -1 && c.data == nil && c.Params == nil && len(c.handlers) == 0 && len(c.Errors) == 0
+//@     && respBound(c) && c.writer.status == 0 && c.writer.length == -1
+//
+//@ func (*Context).Reset [C10]
+//@   modifies c.index, c.data, c.Resp, c.Params, c.handlers, c.Errors
+//@   ensures cursor: c.index == -1
+//@   ensures data: c.data == nil && c.Params == nil
+//@   ensures chains: len(c.handlers) == 0 && len(c.Errors) == 0
+//@   ensures resp_rebound: respBound(c)
+//
+//@ func (*Context).Init [C10, C08]
+//@   modifies c.writer.status, c.writer.length, c.writer.Writer, c.Req, c.index, c.data, c.Resp, c.Params, c.handlers, c.Errors
+//@   ensures pristine: pristine(c)
+//@   ensures bound: c.Req == r && c.writer.Writer == w
+//@   ensures[C08] writer_inv: freshWriter(w) ==> wInv(&c.writer)
+//
+//@ func (*Context).SetStatus [C08]
+//@   requires wInv(&c.writer)
+//@   modifies c.writer.status
+//@   ensures inv: wInv(&c.writer)
+//@   ensures positive_recorded: status > 0 ==> c.writer.status == status
+//@   ensures nonpositive_ignored: status <= 0 ==> c.writer.status == old(c.writer.status)
+//@ func (*Context).SetStatusCode [C08]
+//@   requires wInv(&c.writer)
+//@   modifies c.writer.status
+//@   ensures inv: wInv(&c.writer)
+//@   ensures positive_recorded: status > 0 ==> c.writer.status == status
+//@   ensures nonpositive_ignored: status <= 0 ==> c.writer.status == old(c.writer.status)
+//@ func (*Context).StatusCode [C08]
+//@   ensures result == c.writer.status
+//@ func (*Context).Length [C08]
+//@   ensures result == c.writer.length
+//@ func (*Context).WriteBytes [C08]
+//@   requires wInv(&c.writer) && respBound(c)
+//@   modifies c.writer.status, c.writer.length, hdrCalls(c.writer.Writer), hdrStatus(c.writer.Writer), body(c.writer.Writer), early(c.writer.Writer)
+//@   panics *
+//@   ensures inv: wInv(&c.writer)
+//@   ensures committed: c.writer.length >= 0
+//@   ensures body_appended: body(c.writer.Writer) == old(body(c.writer.Writer)) ++ bytes(bt)
+//@   ensures length_counts: c.writer.length == max(old(c.writer.length), 0) + len(bt)
+
+// ---------------------------------------------------------------------------
+// Handler chain: cursor protocol (C04, C05)
+//
+// started(c): number of handlers of the chain that have been started for this request.
+// aborted(c): Abort/AbortThen/AbortWithStatus has been called for this request.
+//@ ghost started(ref) int
+//@ ghost aborted(ref) bool
+//
+//@ spec chainInv(c *Context) bool = -1 <= c.index && len(c.handlers) <= 63 && (aborted(c) ==> c.index >= 63)
+//@     && 0 <= started(c) && started(c) <= len(c.handlers)
+//@ spec cursorOK(c *Context) bool = c.index >= 63 || started(c) == min(c.index + 1, len(c.handlers))
+//@ spec rwOf(w http.ResponseWriter) *responseWriter = cast(w, *responseWriter)
+//
+// Rely on user handlers (R-handler, R-cursor): a handler acts on the request only through the
+// exported Context API (each method of which is proved to keep these relations), does not call
+// Init/Reset/SetHandlers and does not drive the int8 cursor to 127.
+//@ functype HandlerFunc(self, c)
+//@   requires[C04] in_order: 0 <= c.index && c.index < len(c.handlers) && self == c.handlers[c.index] && started(c) == c.index
+//@   requires chainInv(c) && !aborted(c)
+//@   modifies c.index, c.data, c.Errors, c.Req, c.Resp, c.Params, started(c), aborted(c)
+//@   modifies c.writer.status, c.writer.length, hdrCalls(c.writer.Writer), hdrStatus(c.writer.Writer), body(c.writer.Writer), early(c.writer.Writer)
+//@   panics *
+//@   ensures chainInv(c) && c.index <= 126
+//@   ensures (c.index == old(c.index) && started(c) == old(started(c)) + 1)
+//@        || (c.index >= len(c.handlers) && (c.index >= 63 || started(c) == len(c.handlers)) && started(c) >= old(started(c)) + 1)
+//@   ensures old(wInv(&c.writer)) ==> wInv(&c.writer)
+//@   ensures old(c.writer.length) >= 0 ==> c.writer.length >= old(c.writer.length) && hdrStatus(c.writer.Writer) == old(hdrStatus(c.writer.Writer))
+//
+//@ func (*Context).Next [C04, C05]
+//@   requires chainInv(c) && cursorOK(c) && c.index <= 126
+//@   modifies c.index, c.data, c.Errors, c.Req, c.Resp, c.Params, started(c), aborted(c)
+//@   modifies c.writer.status, c.writer.length, hdrCalls(c.writer.Writer), hdrStatus(c.writer.Writer), body(c.writer.Writer), early(c.writer.Writer)
+//@   panics *
+//@   ensures inv: chainInv(c)
+//@   ensures exhausted: c.index >= len(c.handlers) && c.index >= old(c.index) + 1
+//@   ensures[C04] all_ran: c.index >= 63 || started(c) == len(c.handlers)
+//@   ensures[C05] no_start_after_abort: old(c.index) + 1 >= len(c.handlers) ==> started(c) == old(started(c))
+//@   ensures[C05] abort_sticky: old(aborted(c)) ==> aborted(c)
+//@   ensures[C08] writer_inv: old(wInv(&c.writer)) ==> wInv(&c.writer)
+//@   ensures[C08] committed_status_kept: old(c.writer.length) >= 0 ==> c.writer.length >= old(c.writer.length) && hdrStatus(c.writer.Writer) == old(hdrStatus(c.writer.Writer))
+//@ loop (*Context).Next #0
+//@   invariant chain: chainInv(c) && 0 <= c.index && c.index >= old(c.index) + 1 && c.handlers == old(c.handlers)
+//@   invariant cursor: c.index >= 63 || started(c) == min(c.index, len(c.handlers))
+//@   invariant started_mono: started(c) >= old(started(c)) && (old(c.index) + 1 >= len(c.handlers) ==> started(c) == old(started(c)))
+//@   invariant abort_sticky: old(aborted(c)) ==> aborted(c)
+//@   invariant writer_inv: old(wInv(&c.writer)) ==> wInv(&c.writer)
+//@   invariant committed_status_kept: old(c.writer.length) >= 0 ==> c.writer.length >= old(c.writer.length) && hdrStatus(c.writer.Writer) == old(hdrStatus(c.writer.Writer))
+//
+//@ func (*Context).Abort [C05]
+//@   modifies c.index, aborted(c)
+//@   ghostset aborted(c) = true
+//@   ensures c.index == 63 && aborted(c)
+//@ func (*Context).AbortThen [C05]
+//@   modifies c.index, aborted(c)
+//@   ghostset aborted(c) = true
+//@   ensures c.index == 63 && aborted(c) && result == c
+//@ func (*Context).IsAborted [C05]
+//@   requires aborted(c) ==> c.index >= 63
+//@   ensures true_after_abort: aborted(c) ==> result
+//@   ensures false_without_abort: result ==> aborted(c)
+
+// net/http helpers that write through the given writer. Assumed: they perform
+// w.WriteHeader(code) followed by body writes, and nothing else on w. The contract below is the
+// composition of the (proved) contracts of (*responseWriter).WriteHeader and Write.
+//@ extern net/http.Error(w, error, code)
+//@   requires hastype(w, *responseWriter) && wInv(rwOf(w))
+//@   modifies rwOf(w).status, rwOf(w).length, hdrCalls(rwOf(w).Writer), hdrStatus(rwOf(w).Writer), body(rwOf(w).Writer), early(rwOf(w).Writer)
+//@   ensures wInv(rwOf(w)) && rwOf(w).length >= max(old(rwOf(w).length), 0)
+//@   ensures old(rwOf(w).length) == -1 ==> hdrStatus(rwOf(w).Writer) == (code > 0 ? code : (old(rwOf(w).status) == 0 ? 200 : old(rwOf(w).status)))
+//@   ensures old(rwOf(w).length) >= 0 ==> hdrStatus(rwOf(w).Writer) == old(hdrStatus(rwOf(w).Writer))
+//@   ensures rwOf(w).status == (code > 0 ? code : (old(rwOf(w).length) == -1 && old(rwOf(w).status) == 0 ? 200 : old(rwOf(w).status)))
+//
+//@ func (*Context).AbortWithStatus [C05, C08]
+//@   requires respBound(c) && wInv(&c.writer)
+//@   modifies c.index, aborted(c), c.writer.status, c.writer.length
+//@   modifies hdrCalls(c.writer.Writer), hdrStatus(c.writer.Writer), body(c.writer.Writer), early(c.writer.Writer)
+//@   ghostset aborted(c) = true
+//@   ensures aborted: c.index == 63 && aborted(c)
+//@   ensures[C08] inv: wInv(&c.writer)
+//@   ensures status_pending: code > 0 ==> c.writer.status == code
+//@   ensures status_sent_with_message: old(c.writer.length) == -1 && len(msg) > 0 && code > 0 ==> hdrStatus(c.writer.Writer) == code
+//@   ensures committed_status_kept: old(c.writer.length) >= 0 ==> hdrStatus(c.writer.Writer) == old(hdrStatus(c.writer.Writer))
